@@ -130,6 +130,8 @@ def run(chk):
 
 
     run_P4(chk)
+    run_P5(chk)
+    run_P6(chk)
     # FF4 (norm switch of the in-place steps, per value of `normalize`): with normalize=True every path that changes the norm resets the factor
     # to 1, with normalize=False every store accumulates (never overwrites)
     for mname in ("orthogonalize_site_", "diagonalize_central_"):
@@ -162,6 +164,101 @@ def _norm_switch_on_store_paths(chk, f, obj="self", knob="normalize"):
             ok = bool(vals) and all(isinstance(v, ast.BinOp) and isinstance(v.op, ast.Mult) and me in (A.text(v.left), A.text(v.right)) for v in vals)
             chk.verdict("FF4", (f, stores[0]), f"{f.short}: {knob}=False accumulates into {me} ({[A.text(v) for v in vals]})", True if ok else False,
                         f"{f.short}(): with {knob}=False some live store overwrites `{me}` instead of multiplying it: the norm tracked so far is lost")
+
+
+def run_P5(chk):
+    """P5: the entropy kernel discards probabilities below `tol` *after* normalising them: the array compared with `tol` is defined by the
+    division by the total weight.  Cutting first applies an absolute threshold to un-normalised weights -- a state of small norm loses
+    every Schmidt value and gets entropy 0 (or +-inf)."""
+    from ..core.seqsel import SelOrder
+    prog = chk.prog
+    chk.rule("P5", "the entropy kernel compares normalised probabilities with the cut-off `tol`", floor=1)
+    f = prog.func("yastn.backend.backend_np", "entropy")
+    so = SelOrder(f.node)
+    par = A.enclosing_map(f.node)
+    norms = {nm for nm, ds in so.b.items() for st, v, k in ds if isinstance(v, ast.Call) and (A.call_name(v) or "").split(".")[-1] in ("sum", "norm")}
+
+    def normalised(e, at, depth=0):
+        if depth > 4:
+            return False
+        if isinstance(e, ast.BinOp) and isinstance(e.op, ast.Div) and isinstance(e.right, ast.Name) and e.right.id in norms:
+            return True
+        if isinstance(e, ast.Subscript):          # a selection of normalised values
+            return normalised(e.value, at, depth + 1)
+        if isinstance(e, ast.Name):
+            ds = so.defs(e.id, at)
+            return bool(ds) and all(k == "assign" and v is not None and normalised(v, st, depth + 1) for st, v, k in ds)
+        return False
+    n = 0
+    for c in ast.walk(f.node):
+        if isinstance(c, ast.Compare) and len(c.ops) == 1 and isinstance(c.comparators[0], ast.Name) and c.comparators[0].id == "tol":
+            n += 1
+            st = A.stmt_of(c, par)
+            ok = normalised(c.left, st)
+            chk.verdict("P5", (f, c), f"entropy: `{A.text(c)}` on normalised data", True if ok else False,
+                        f"backend kernel entropy(): `{A.text(c)}` compares values that were not yet divided by the total weight with the absolute cut-off `tol`: "
+                        f"for a spectrum of small norm every value is dropped (entropy 0 / inf instead of the entropy of the normalised distribution)")
+    chk.require(n, "entropy: the comparison with `tol` was not found")
+    # ... and for every alpha: each return that evaluates a formula on the probabilities passes the cut-off
+    from ..core.cfg import CFG
+    cfg = CFG(f.node)
+    cuts = [A.stmt_of(c, par) for c in ast.walk(f.node) if isinstance(c, ast.Compare) and len(c.ops) == 1 and isinstance(c.comparators[0], ast.Name)
+            and c.comparators[0].id == "tol"]
+    cuts = [c for c in cuts if c in cfg.node_of]
+    for r in A.returns_of(f.node):
+        if r.value is None or not any(isinstance(x, ast.Name) and x.id == "data" for x in ast.walk(r.value)) or r not in cfg.node_of:
+            continue
+        ok = bool(cuts) and cfg.must_pass([r], cuts)
+        chk.verdict("P5", (f, r), f"entropy: `{A.short(r, 50)}` evaluated after the cut-off", True if ok else False,
+                    f"backend kernel entropy(): `{A.short(r, 60)}` is reached on a path that skips the cut-off `data > tol`: for that alpha the values below "
+                    f"`tol` enter the formula (Renyi entropies of order < 1 are dominated by them), unlike for the other orders")
+
+
+def run_P6(chk):
+    """P6: every normalising division `X / v` with v = <something>.norm() is protected against v == 0 on every path -- it sits under `if v:` /
+    `.. if v else ..`, or every definition of v that reaches it already replaced a zero (`v if v else 1`).  The zero state is a legal MPS
+    (zero blocks after applying an operator); 0 / 0 turns it into nan."""
+    from ..core.seqsel import SelOrder
+    prog = chk.prog
+    chk.rule("P6", "normalising divisions by a norm are protected against a zero norm on every path", floor=6)
+    for f in prog.all_funcs():
+        if f.module.name not in ("yastn.tn.mps._mps_obc", "yastn.tn.mps._compression"):
+            continue
+        b = A.local_bindings(f.node)
+        norms = {nm for nm, ds in b.items() for st, v, k in ds if isinstance(v, ast.Call) and A.callee_attr(v) == "norm" and not v.args}
+        if not norms:
+            continue
+        so = SelOrder(f.node)
+        par = A.enclosing_map(f.node)
+        for d in ast.walk(f.node):
+            if not (isinstance(d, ast.BinOp) and isinstance(d.op, ast.Div) and isinstance(d.right, ast.Name) and d.right.id in norms):
+                continue
+            v = d.right.id
+            guarded = False
+            cur = d
+            while cur in par and not guarded:
+                p_ = par[cur]
+                if isinstance(p_, ast.IfExp) and cur is p_.body and any(isinstance(x, ast.Name) and x.id == v for x in ast.walk(p_.test)):
+                    guarded = True
+                if isinstance(p_, ast.If) and cur in p_.body and any(isinstance(x, ast.Name) and x.id == v for x in ast.walk(p_.test)):
+                    guarded = True
+                cur = p_
+            if not guarded:
+                st = A.stmt_of(d, par)
+                ds = so.defs(v, st)
+                def safe(val):
+                    return (isinstance(val, ast.IfExp) and any(isinstance(x, ast.Name) and x.id == v for x in ast.walk(val.test))) or \
+                        (isinstance(val, ast.BoolOp) and isinstance(val.op, ast.Or)) or \
+                        (isinstance(val, ast.Call) and A.call_name(val) in ("max",))
+                guarded = bool(ds) and all(k == "assign" and val is not None and safe(val) for st_, val, k in ds)
+                if not guarded and st in so.cfg.node_of:
+                    # an early exit: under the assumption `v` is falsy the division is not reachable from the definition of v
+                    g = so.cfg.specialised({v: False})
+                    starts = [st_ for st_, val, k in ds if st_ is not None and st_ in so.cfg.node_of]
+                    guarded = bool(starts) and not any(g.path_exists(s0, st) for s0 in starts)
+            chk.verdict("P6", (f, d), f"{f.short}: `{A.text(d)}`", True if guarded else False,
+                        f"{f.short}(): `{A.text(d)}` divides by the norm `{v}` on a path where nothing excludes {v} == 0: the zero state (zero blocks, e.g. an "
+                        f"operator that annihilates the state) becomes nan instead of staying zero with factor 0")
 
 
 def run_P4(chk):
@@ -240,6 +337,8 @@ def run_P3(chk):
 
 
 MUTANTS = [
+    ('entropy cuts before normalising', 'yastn/backend/backend_np.py', '        data = data / Snorm\n        data = data[data > tol]\n', '        data = data[data > tol] / Snorm\n', 'P5'),
+    ('zero-norm guard only when normalising', 'yastn/tn/mps/_mps_obc.py', '        self.A[self.pC] = R / nR if nR else R\n        self.factor = 1 if normalize else self.factor * nR\n', '        if normalize:\n            self.factor = 1\n            nR = nR if nR else 1\n        else:\n            self.factor = self.factor * nR\n        self.A[self.pC] = R / nR\n', 'P6'),
     ('truncate_ default direction changed', 'yastn/tn/mps/_mps_obc.py', "    def truncate_(self, to='last', opts_svd=None, normalize=True) -> Number:", "    def truncate_(self, to='first', opts_svd=None, normalize=True) -> Number:", 'U8'),
     ('factor reset only under not normalize', 'yastn/tn/mps/_mps_obc.py', '            self.factor = 1 if normalize else self.factor * nS\n', '            if not normalize:\n                self.factor = self.factor * nS\n', 'FF4'),
     ('canonize_ without the leading absorb', 'yastn/tn/mps/_mps_obc.py', '        self.absorb_central_(to=to)\n        for n in self.sweep(to=to):\n            self.orthogonalize_site_(n=n, to=to, normalize=normalize)\n            self.absorb_central_(to=to)', '        for n in self.sweep(to=to):\n            self.orthogonalize_site_(n=n, to=to, normalize=normalize)\n            self.absorb_central_(to=to)', 'P4'),
